@@ -115,7 +115,7 @@ def gen_case(rng, longmax):
         nt = rng.choice([2, 2, 3, 3, 4, 4, 6, 8])
         n = rng.randint(1, 12) if r < 0.70 else rng.randint(13, longmax)
         ops = gen_random(rng, n, prios, nt)
-    kind = rng.choice(['obj', 'obj', 'obj', 'odd', 'odd', 'eq'])    # look-alike objects / falsy values / fresh equal tuples
+    kind = rng.choice(['obj', 'obj', 'lib', 'lib', 'odd', 'odd', 'eq'])    # look-alikes / library objects / falsy values / fresh equal tuples
     return {'ops': ([['tasks', kind]] if kind != 'obj' else []) + ops + [['iter'], ['empty']]}
 
 
@@ -658,7 +658,7 @@ def boundary_histories():
         [A(I1, 0), A(I1, 1), ['pop'], A(I1, 0), A(I0, 2), ['remove', 2]] + tail,
     ]
     Z, B0, B1, Q1, Qh = ['Z', '0'], ['B', '0'], ['B', '1'], ['Q', '1'], ['Q', '1/2']
-    for kind in ('odd', 'eq', 'obj'):
+    for kind in ('odd', 'eq', 'obj', 'lib'):
         T = [['tasks', kind]]
         hs += [
             T + [A(I0, 0), A(F0, 1), A(Z, 2), A(B0, 3), A(I0, 0)] + tail + tail,      # all zeros tie; task id 0 re-added
